@@ -90,7 +90,7 @@ theorem keepOf_nil : keepOf [] = fun _ => true := by
   funext x; simp [keepOf]
 
 theorem react_lost (rx : Reactions) (s : St V R) (did : Nat) (r : R) :
-    react rx s did (.lost r) = issue s (reactionOf rx did) := by
+    react rx s did (.lost r) = issue s (reactionOf rx did false) := by
   simp [react, outcome, isFailure]
 
 /-- The loop of `connectionLost` with re-entrant errbacks = the plain loop, then the errbacks' calls. -/
@@ -99,7 +99,7 @@ theorem lostLoopR_eq (rx : Reactions) (r : R) : ∀ (l : List (Nat × Pending)) 
     l.Pairwise (fun a b => ∀ tm, a.2.timer = some tm → b.2.timer ≠ some tm) →
     lostLoopR rx r l t =
       issue (afterLoop t (keepOf l) (l.map (fun e => (e.2.did, Firing.lost r))))
-        (l.flatMap (fun e => reactionOf rx e.2.did))
+        (l.flatMap (fun e => reactionOf rx e.2.did false))
   | [], t, _, _ => by
     simp [lostLoopR, afterLoop, keepOf_nil, issue, filter_const_true]
   | (σ, p) :: rest, t, hact, hpw => by
@@ -111,7 +111,7 @@ theorem lostLoopR_eq (rx : Reactions) (r : R) : ∀ (l : List (Nat × Pending)) 
         (∀ e ∈ rest, ∀ tm, e.2.timer = some tm → ∀ σ', (tm, σ') ∈ t.timers → k1 (tm, σ') = true) →
         lostLoopR rx r ((σ, p) :: rest) t =
           issue (afterLoop t (keepOf ((σ, p) :: rest)) (((σ, p) :: rest).map (fun e => (e.2.did, Firing.lost r))))
-            (((σ, p) :: rest).flatMap (fun e => reactionOf rx e.2.did)) := by
+            (((σ, p) :: rest).flatMap (fun e => reactionOf rx e.2.did false)) := by
       intro k1 hcancel hk1 hkeep hrestk
       simp only [lostLoopR, hcancel, react_lost]
       have hv : fire { t with timers := t.timers.filter k1 } p.did (Firing.lost r)
@@ -134,7 +134,7 @@ theorem lostLoopR_eq (rx : Reactions) (r : R) : ∀ (l : List (Nat × Pending)) 
       · intro e he tm htm
         obtain ⟨h1, σ', h2⟩ := hact e (List.mem_cons_of_mem _ he) tm htm
         refine ⟨?_, σ', ?_⟩
-        · have := issue_nextId_le (reactionOf rx p.did) (afterLoop t k1 [(p.did, Firing.lost r)])
+        · have := issue_nextId_le (reactionOf rx p.did false) (afterLoop t k1 [(p.did, Firing.lost r)])
           simp only [afterLoop] at this ⊢
           omega
         · apply issue_timers_mem
@@ -172,7 +172,7 @@ theorem lostLoopR_eq (rx : Reactions) (r : R) : ∀ (l : List (Nat × Pending)) 
 the order of the table. -/
 theorem lostOpR_eq (asStr : V → Option (List Char)) (rx : Reactions) {s : St V R} (hI : Inv s) (r : R) :
     lostOpR rx s r = run asStr (lostOp s r)
-      (if s.ready then (s.pending.flatMap (fun e => reactionOf rx e.2.did)).map NewCall.toOp else []) := by
+      (if s.ready then (s.pending.flatMap (fun e => reactionOf rx e.2.did false)).map NewCall.toOp else []) := by
   rcases Bool.eq_false_or_eq_true s.ready with hr | hr
   case inr => simp [lostOpR, lostOp, hr, run]
   case inl =>
@@ -207,18 +207,15 @@ theorem lostOpR_eq (asStr : V → Option (List Char)) (rx : Reactions) {s : St V
 
 /-! ### Every operation of the re-entrant model as a run of the sequential one -/
 
-/-- The calls the errback of `did` issues when it is fired with `f`, as ordinary operations. -/
+/-- The calls the callbacks of `did` issue when it is fired with `f`, as ordinary operations. -/
 def reactOps (rx : Reactions) (s : St V R) (did : Nat) (f : Firing V R) : List (Op V R) :=
-  if isFailure (outcome (rsOf s did) f) then (reactionOf rx did).map NewCall.toOp else []
+  (reactionOf rx did (!isFailure (outcome (rsOf s did) f))).map NewCall.toOp
 
 theorem react_eq_run (asStr : V → Option (List Char)) (rx : Reactions) (s : St V R) (did : Nat)
-    (f : Firing V R) : react rx s did f = run asStr s (reactOps rx s did f) := by
-  unfold react reactOps
-  split
-  · exact issue_eq_run asStr _ _
-  · rfl
+    (f : Firing V R) : react rx s did f = run asStr s (reactOps rx s did f) :=
+  issue_eq_run asStr _ _
 
-/-- The calls issued by the errbacks of a list of firings, each against the state the previous ones left. -/
+/-- The calls issued by the callbacks of a list of firings, each against the state the previous ones left. -/
 def afterOps (asStr : V → Option (List Char)) (rx : Reactions) :
     List (Nat × Firing V R) → St V R → List (Op V R)
   | [], _ => []
@@ -233,24 +230,72 @@ theorem foldl_react_eq_run (asStr : V → Option (List Char)) (rx : Reactions) :
     rw [react_eq_run asStr]
     exact foldl_react_eq_run asStr rx rest _
 
-/-- The sequential operations one re-entrant operation amounts to. -/
+/-! ### Disconnect callbacks -/
+
+/-- The calls the disconnect callbacks issue, in registration order. -/
+def dcCalls : List DcAction → List NewCall
+  | [] => []
+  | .issues cs :: rest => cs ++ dcCalls rest
+  | .raises :: rest => dcCalls rest
+
+/-- No disconnect callback lets an exception out of `connectionLost`: each call is guarded in the source,
+or none of them raises. -/
+def QuietDcs (dcs : List DcAction) : Prop := C08Client.dcGuarded = true ∨ ∀ a ∈ dcs, a ≠ DcAction.raises
+
+theorem runDcs_quiet : ∀ (dcs : List DcAction) (s : St V R), QuietDcs dcs →
+    runDcs dcs s = (issue s (dcCalls dcs), false)
+  | [], _, _ => rfl
+  | .issues cs :: rest, s, hq => by
+    have hq' : QuietDcs rest := hq.imp id (fun h a ha => h a (List.mem_cons_of_mem _ ha))
+    simp only [runDcs, dcCalls, issue_append]
+    exact runDcs_quiet rest _ hq'
+  | .raises :: rest, s, hq => by
+    have hq' : QuietDcs rest := hq.imp id (fun h a ha => h a (List.mem_cons_of_mem _ ha))
+    rcases hq with hg | hn
+    · simp only [runDcs, hg, if_true, dcCalls]
+      exact runDcs_quiet rest _ hq'
+    · exact absurd rfl (hn _ List.mem_cons_self)
+
+/-- The sequential operations one re-entrant operation amounts to.  For `connectionLost`: the calls of
+the disconnect callbacks come BEFORE the loss (they are in the table that is failed), the errbacks' retries
+AFTER it (they go into the new table). -/
 def opsOf (asStr : V → Option (List Char)) (sr : StR V R) : OpR V R → List (Op V R)
   | .onErr _ _ => []
+  | .onOk _ _ => []
+  | .onDisconnect _ => []
   | .op (.lost r) =>
-    .lost r :: (if sr.base.ready then
-      (sr.base.pending.flatMap (fun e => reactionOf sr.rx e.2.did)).map NewCall.toOp else [])
+    if sr.base.ready then
+      (dcCalls sr.dcs).map NewCall.toOp ++ .lost r ::
+        ((run asStr sr.base ((dcCalls sr.dcs).map NewCall.toOp)).pending.flatMap
+          (fun e => reactionOf sr.rx e.2.did false)).map NewCall.toOp
+    else [.lost r]
   | .op o =>
     o :: afterOps asStr sr.rx ((step asStr sr.base o).log.drop sr.base.log.length) (step asStr sr.base o)
 
-theorem stepR_base (asStr : V → Option (List Char)) (sr : StR V R) (hI : Inv sr.base) (o : OpR V R) :
+theorem stepR_base (asStr : V → Option (List Char)) (sr : StR V R) (hI : Inv sr.base) (hq : QuietDcs sr.dcs)
+    (o : OpR V R) (hf : FreshRun sr.base (opsOf asStr sr o)) :
     (stepR asStr sr o).base = run asStr sr.base (opsOf asStr sr o) := by
   cases o with
   | onErr did calls => rfl
+  | onOk did calls => rfl
+  | onDisconnect a => rfl
   | op o =>
     cases o with
     | lost r =>
-      simp only [stepR, opsOf, run_cons]
-      exact lostOpR_eq asStr sr.rx hI r
+      simp only [stepR, opsOf] at hf ⊢
+      rcases Bool.eq_false_or_eq_true sr.base.ready with hr | hr
+      case inr => simp [lostOpD, hr, run, Txdbus.Calls.step, lostOp]
+      case inl =>
+        rw [if_pos hr] at hf ⊢
+        have hnr : (!sr.base.ready) = false := by simp [hr]
+        have hI1 : Inv (run asStr sr.base ((dcCalls sr.dcs).map NewCall.toOp)) :=
+          Inv.run asStr _ hI hf.prefix
+        have hr1 : (run asStr sr.base ((dcCalls sr.dcs).map NewCall.toOp)).ready = true := by
+          rw [run_ready, hr]
+        unfold lostOpD
+        simp only [hnr, Bool.false_eq_true, if_false, runDcs_quiet sr.dcs sr.base hq]
+        rw [issue_eq_run asStr, lostOpR_eq asStr sr.rx hI1 r, if_pos hr1, run_append, run_cons]
+        rfl
     | call σ er tmo rs => simp only [stepR, opsOf, run_cons, reactAll]; exact foldl_react_eq_run asStr _ _ _
     | callBad rs => simp only [stepR, opsOf, run_cons, reactAll]; exact foldl_react_eq_run asStr _ _ _
     | ret rsn msg => simp only [stepR, opsOf, run_cons, reactAll]; exact foldl_react_eq_run asStr _ _ _
@@ -262,18 +307,43 @@ def flat (asStr : V → Option (List Char)) : StR V R → List (OpR V R) → Lis
   | _, [] => []
   | sr, o :: rest => opsOf asStr sr o ++ flat asStr (stepR asStr sr o) rest
 
+/-- No operation registers a raising disconnect callback - unless the source guards the callbacks. -/
+def NoRaise (ops : List (OpR V R)) : Prop :=
+  C08Client.dcGuarded = true ∨ ∀ o ∈ ops, ∀ a, o = OpR.onDisconnect a → a ≠ DcAction.raises
+
+theorem stepR_quiet (asStr : V → Option (List Char)) (sr : StR V R) (o : OpR V R) (hq : QuietDcs sr.dcs)
+    (hn : C08Client.dcGuarded = true ∨ ∀ a, o = OpR.onDisconnect a → a ≠ DcAction.raises) :
+    QuietDcs (stepR asStr sr o).dcs := by
+  rcases hq with hg | hq
+  · exact Or.inl hg
+  rcases hn with hg | hn
+  · exact Or.inl hg
+  cases o with
+  | onDisconnect a =>
+    refine Or.inr ?_
+    intro b hb
+    simp only [stepR, List.mem_append, List.mem_singleton] at hb
+    rcases hb with hb | hb
+    · exact hq b hb
+    · subst hb; exact hn _ rfl
+  | onErr did calls => exact Or.inr hq
+  | onOk did calls => exact Or.inr hq
+  | op o => cases o <;> exact Or.inr hq
+
 theorem runR_base (asStr : V → Option (List Char)) : ∀ (ops : List (OpR V R)) (sr : StR V R),
-    Inv sr.base → FreshRun sr.base (flat asStr sr ops) →
+    Inv sr.base → QuietDcs sr.dcs → NoRaise ops → FreshRun sr.base (flat asStr sr ops) →
     (runR asStr sr ops).base = run asStr sr.base (flat asStr sr ops)
-  | [], _, _, _ => rfl
-  | o :: rest, sr, hI, hf => by
+  | [], _, _, _, _, _ => rfl
+  | o :: rest, sr, hI, hq, hn, hf => by
     simp only [flat] at hf ⊢
-    have hstep := stepR_base asStr sr hI o
+    have hstep := stepR_base asStr sr hI hq o hf.prefix
     have hI' : Inv (stepR asStr sr o).base := by
       rw [hstep]; exact Inv.run asStr _ hI hf.prefix
     have hf' : FreshRun (stepR asStr sr o).base (flat asStr (stepR asStr sr o) rest) := by
       rw [hstep]; exact FreshRun.append asStr _ hI hf
+    have hq' := stepR_quiet asStr sr o hq (hn.imp id (fun h a => h o List.mem_cons_self a))
+    have hn' : NoRaise rest := hn.imp id (fun h o' ho' => h o' (List.mem_cons_of_mem _ ho'))
     rw [run_append, ← hstep]
-    exact runR_base asStr rest (stepR asStr sr o) hI' hf'
+    exact runR_base asStr rest (stepR asStr sr o) hI' hq' hn' hf'
 
 end Txdbus.Calls
